@@ -44,6 +44,7 @@ type Case struct {
 	Expect    string // "" normal; "reach" = vacuity twin (must reach tags)
 	Group     string // evidence grouping
 	MustReach []string // reachability witnesses besides "end"
+	Solver    string   // primary solver for this case ("" = the runner's): z3-new | z3 | cvc5
 	Portfolio bool     // queries the primary solver leaves undecided go to z3 4.8.12 and then cvc5
 	SoftBranch bool    // undecided branch-feasibility queries (budget SoftMs) keep the branch instead of failing the case
 	SoftMs    int
